@@ -227,6 +227,45 @@ func (f *Filter) String(prefix string) (str string) {
 	return str
 }
 
+// clone returns a deep copy of the filter tree.
+func (f *Filter) clone() *Filter {
+	cloned := &Filter{
+		regexp:         f.regexp,
+		column:         f.column,
+		stringVal:      f.stringVal,
+		customTag:      f.customTag,
+		int64Value:     f.int64Value,
+		floatValue:     f.floatValue,
+		stats:          f.stats,
+		statsCount:     f.statsCount,
+		statsPos:       f.statsPos,
+		columnIndex:    f.columnIndex,
+		columnOptional: f.columnOptional,
+		intValue:       f.intValue,
+		isEmpty:        f.isEmpty,
+		negate:         f.negate,
+		groupOperator:  f.groupOperator,
+		operator:       f.operator,
+		statsType:      f.statsType,
+	}
+	cloned.filter = cloneFilterList(f.filter)
+
+	return cloned
+}
+
+// cloneFilterList returns a deep copy of a list of filter trees.
+func cloneFilterList(list []*Filter) []*Filter {
+	if list == nil {
+		return nil
+	}
+	cloned := make([]*Filter, 0, len(list))
+	for i := range list {
+		cloned = append(cloned, list[i].clone())
+	}
+
+	return cloned
+}
+
 // Equals returns true if both filter are exactly identical.
 func (f *Filter) Equals(other *Filter) bool {
 	if f.column != other.column {
